@@ -11,6 +11,61 @@ import sys
 import traceback
 
 
+def watchdog(pid, limit_s=180, overall_s=None):
+    """A daemon thread.  If ONE call into the implementation (the outermost frame whose code lives in the txdbus package
+    stays the same frame object) is still running after limit_s seconds, the implementation does not return: that is
+    reported as a violation (with the stack) instead of hanging the check.  Harness calls into the implementation take
+    micro- to milliseconds; the longest legitimate one (a 128 MiB message) a few seconds.  If the check as a whole
+    exceeds overall_s, it is a machinery failure (exit 2)."""
+    import threading
+    import time
+    import traceback as tb
+    main_id = threading.main_thread().ident
+    t0 = time.time()
+
+    def outermost_impl_frame():
+        f = sys._current_frames().get(main_id)
+        found = None
+        while f is not None:
+            fn = f.f_code.co_filename.replace(os.sep, '/')
+            if '/txdbus/' in fn and '/harness/' not in fn:
+                found = f
+            f = f.f_back
+        return found
+
+    def loop():
+        held, since = None, None
+        while True:
+            time.sleep(5)
+            f = outermost_impl_frame()
+            if f is not None and f is held:
+                if time.time() - since >= limit_s:
+                    stack = ''.join(tb.format_stack(sys._current_frames().get(main_id))[-12:])
+                    from . import core
+                    chk = core.LAST_CHECK
+                    try:
+                        if chk is not None:
+                            chk.violation('a call into the implementation did not return within %d s (%s)' % (
+                                limit_s, f.f_code.co_name), dict(kind='non-termination', stack=stack))
+                            chk.states = max(chk.states, 1)
+                            chk.transitions = max(chk.transitions, 1)
+                            chk.finish(rule='aborted: the implementation did not return')
+                        else:
+                            print('VIOLATION property=%s replay=-' % pid)
+                    finally:
+                        sys.stdout.flush()
+                        os._exit(1)
+            else:
+                held, since = f, time.time()
+            if overall_s and time.time() - t0 > overall_s:
+                sys.stderr.write(''.join(tb.format_stack(sys._current_frames().get(main_id))[-12:]))
+                print('MACHINERY-FAILURE property=%s (no result after %d s)' % (pid, overall_s))
+                sys.stdout.flush()
+                os._exit(2)
+    th = threading.Thread(target=loop, daemon=True)
+    th.start()
+
+
 def main():
     ap = argparse.ArgumentParser()
     ap.add_argument('pid')
@@ -19,6 +74,8 @@ def main():
     a = ap.parse_args()
     seed = int(os.environ.get('VERIF_SEED', '0') or 0)
     pid = a.pid.upper()
+    if not a.replay:
+        watchdog(pid, overall_s=3 * 3600 if a.tier == 'quick' else 12 * 3600)
     try:
         mod = importlib.import_module('harness.' + pid.lower())
         if a.replay:
